@@ -2,7 +2,6 @@ package bubble
 
 import (
 	"context"
-	"errors"
 	"math/rand"
 	"os"
 	"testing"
@@ -11,7 +10,7 @@ import (
 	"github.com/bradenaw/juniper/stream"
 )
 
-var errSender = errors.New("sender error")
+var errSender error = &srcError{"sender error"}
 
 func pipeErr(err error) Ev {
 	switch {
